@@ -8,8 +8,9 @@
    the seven specification bits of Model/CfgMerge.v for "E before, R after, R2 after running it again".
    `presets`, `linter_sections`, the template, markers, separators, defaults and validators are regenerated
    from /repo on every run (Gen/CfgToolGen.v). *)
-From TL Require Import Lib.Base Lib.GenTypes Model.CfgTypes Gen.CfgToolGen Model.CfgMerge Model.CfgCli
-     Proofs.CfgLines Proofs.CfgMergeMain Proofs.CfgMergeText Proofs.CfgMergeSpec Proofs.CfgInitMain Proofs.CfgCliProofs Proofs.CfgConvert.
+From TL Require Import Lib.Base Lib.GenTypes Model.CfgTypes Gen.CfgToolGen Model.CfgMerge Model.CfgCli Model.CfgLoc
+     Proofs.CfgLines Proofs.CfgMergeMain Proofs.CfgMergeText Proofs.CfgMergeSpec Proofs.CfgInitMain Proofs.CfgCliProofs Proofs.CfgConvert
+     Proofs.CfgLocProofs.
 From Coq Require Import ZArith.
 
 (* 1. init-config without --force, every preset, every existing file of the subset, every quirk vector with the two
@@ -145,6 +146,71 @@ Theorem C20_history : forall q ex cs f,
   forallb (fun b => b) (spec_trace [] f cs (run q ex f cs)) = true.
 Proof. exact history_spec_fresh. Qed.
 Print Assumptions C20_history.
+
+(* 7. WITHOUT --config: the default-location chain of src/config.py (Model/CfgLoc.v).  The state is one file state per entry of
+      CONFIG_LOCATIONS - absent, unreadable / not a mapping, or a mapping - in ANY combination.  `load_chain` takes the first
+      location whose merged configuration validates (unreadable and invalid ones are skipped), `config set` / `reset` write
+      CONFIG_LOCATIONS[save_location_index].  Both literals are read from the source; the save location is the one searched first. *)
+Theorem C20_save_location_is_searched_first :
+  save_location_index = 0 /\
+  config_locations = [("cwd", "config.yaml"); ("cwd", "config.json"); ("home", ".config/{{PROJECT_NAME}}/config.yaml");
+                      ("home", ".config/{{PROJECT_NAME}}/config.json"); ("abs", "/etc/{{PROJECT_NAME}}/config.yaml")].
+Proof. exact (conj gen_save_first gen_locations). Qed.
+Print Assumptions C20_save_location_is_searched_first.
+
+Theorem C20_default_locations_rejected_set : forall q ls k t,
+  lo_rc (lstep q ls (CSet k t)) <> 0 -> lo_files (lstep q ls (CSet k t)) = ls.
+Proof. exact lrejected_set_leaves_files. Qed.
+Print Assumptions C20_default_locations_rejected_set.
+
+Theorem C20_default_locations_get : forall q ls k, lo_files (lstep q ls (CGet k)) = ls.
+Proof. exact lget_leaves_files. Qed.
+Print Assumptions C20_default_locations_get.
+
+(* an accepted set writes the save location - with a configuration that validates and holds the converted value - and no other *)
+Theorem C20_default_locations_accepted_set : forall q ls k t,
+  lo_rc (lstep q ls (CSet k t)) = 0 ->
+  exists c, nth save_location_index (lo_files (lstep q ls (CSet k t))) LAbsent = LFile c /\ valid c = true
+            /\ lookup (norm k) c = Some (convert t)
+            /\ forall m, m <> save_location_index -> nth m (lo_files (lstep q ls (CSet k t))) LAbsent = nth m ls LAbsent.
+Proof. exact laccepted_set_writes. Qed.
+Print Assumptions C20_default_locations_accepted_set.
+
+(* ... and the next `config get` finds it, whatever stands at the other locations (a valid file further down the chain, an
+      invalid or unreadable one in front of it before the set) *)
+Theorem C20_default_locations_set_then_get : forall q ls k t,
+  lo_rc (lstep q ls (CSet k t)) = 0 ->
+  let ls' := lo_files (lstep q ls (CSet k t)) in
+  lstep q ls' (CGet k) = Build_lobs 0 (Some (show (convert t))) ls'.
+Proof. exact lset_then_get. Qed.
+Print Assumptions C20_default_locations_set_then_get.
+
+(* histories: every quirk vector, every initial combination of files, every command sequence - each step meets the trace
+      specification of Model/CfgLoc.v (rejected set / get: no file anywhere changes; accepted set: every changed file is valid as
+      documented after loading and holds the value, some location holds it; a later get prints it) *)
+Theorem C20_default_locations_history : forall q cs ls,
+  forallb (fun b => b) (lspec_trace [] ls cs (lrun q ls cs)) = true.
+Proof. exact lhistory_spec_fresh. Qed.
+Print Assumptions C20_default_locations_history.
+
+(* the single-file machine of theorems 4-6 (no --config, only ./config.yaml considered) is the one-location instance *)
+Theorem C20_single_file_is_one_location : forall q f c,
+  let o := step q false f c in
+  lstep q [lf f] c = Build_lobs (o_rc o) (o_out o) [lf (o_file o)].
+Proof. exact lstep_single. Qed.
+Print Assumptions C20_single_file_is_one_location.
+
+(* non-vacuity: ./config.yaml invalid (skipped), ./config.json unreadable (skipped), the user-level YAML file valid: the greeting
+   comes from the third location; the accepted set rewrites ./config.yaml (the skipped invalid file) with the merged configuration,
+   the rejected one touches nothing; the other locations keep their files *)
+Definition ex_locs : lstate :=
+  [LFile [("log_level", VStr "bogus")]; LBroken; LFile [("greeting", VStr "Hi"); ("my-key", VInt 5)]; LAbsent; LAbsent].
+Example C20_locations_nonvacuous :
+  map lo_out (lrun ideal ex_locs [CGet "greeting"; CSet "timeout" "0"; CSet "my-key" "7"; CGet "my_key"; CGet "greeting"])
+    = [Some "Hi"; None; Some "Set my_key = 7"; Some "7"; Some "Hi"] /\
+  map lo_rc (lrun ideal ex_locs [CGet "greeting"; CSet "timeout" "0"; CSet "my-key" "7"]) = [0; 1; 0] /\
+  tl (lo_files (lstep ideal ex_locs (CSet "my-key" "7"))) = tl ex_locs.
+Proof. vm_compute. repeat split; reflexivity. Qed.
 
 (* non-vacuity: an admissible existing file with comments, both spellings, a flow value and a column-0 sequence, from
    which nine sections are missing; the merge keeps `magic_numbers` in effect under the ideal vector *)
